@@ -1,6 +1,7 @@
 """Fact base loader and basic CFG utilities over the JSON written by the
 memc-facts driver (built MIR, resolved callees, type tables)."""
 import json
+import re
 import os
 from collections import defaultdict
 
@@ -413,9 +414,23 @@ class Facts:
         self.witnesses = {}
         self.meta = {}
         raw = []
+        self.std_aliases = []
         for p in paths:
             with open(p) as f:
-                raw.append(json.load(f))
+                txt = f.read()
+            # rustc prints a std item under the shortest visible path of any loaded crate (`futures::Future` once the
+            # crate uses `futures`): the driver lists such items with their std path, and they are renamed back here
+            k = txt.rfind('"std_aliases"')
+            if k >= 0:
+                al = json.loads("{" + txt[k:].rstrip().rstrip("}") + "}").get("std_aliases") or []
+                for a, b in al:
+                    if re.fullmatch(r"[A-Za-z_][\w:]*", a) and re.fullmatch(r"[A-Za-z_][\w:]*", b):
+                        body, tail = txt[:k], txt[k:]
+                        body2 = re.sub(r"(?<![\w:])" + re.escape(a) + r"(?![\w])", b, body)
+                        if body2 != body:
+                            self.std_aliases.append((a, b))
+                        txt = body2 + tail
+            raw.append(json.loads(txt))
         import canon
 
         # private items are renamed to the rules' vocabulary when they can be identified structurally (analysis/canon.py)
